@@ -7,6 +7,12 @@ package dastard
 // against the real asyncbufio.writeLoop goroutine under the controlled scheduler; a "disk stall" is
 // the consumer not being scheduled. The queue depth constant is made settable (1000 is not
 // reachable exhaustively; the code is identical).
+//
+// Tick scenarios (v07Scenario.ticks > 0): writeLoop's periodic-flush ticker is a seam (asyncbufio.VerifNewTicker,
+// default time.NewTicker) whose channel is fed by a clock thread under the scheduler, so that a bounded number of
+// periodic flushes happen at arbitrary points; in these scenarios the consumer can also be stalled right before
+// every call into the bufio.Writer (between draining the queue and the "disk" write) and every atomic operation
+// is a scheduling point (asyncbufio.VerifStallPoints switches those opt-in points on).
 
 import (
 	"bytes"
@@ -16,6 +22,7 @@ import (
 	"testing"
 	"time"
 
+	"github.com/usnistgov/dastard/asyncbufio"
 	"github.com/usnistgov/dastard/internal/vexp"
 	"github.com/usnistgov/dastard/internal/vhook"
 	"github.com/usnistgov/dastard/ljh"
@@ -298,8 +305,38 @@ func (v *v07Multi) targets() []v07Target {
 	}
 }
 
-func v07Make(kind string, path string) v07Writer {
+// ---- the asynchronous writer itself over a plain file (no format layer): a header and every record are one
+// Write each, so a schedule is short and the tick scenarios can afford more ticks / preemptions.
+type v07Raw struct {
+	path  string
+	depth int
+	f     *os.File
+	w     *asyncbufio.Writer
+}
+
+const v07RawHeader = "raw file\n#End of Header\n"
+
+func (v *v07Raw) create() error {
+	f, err := os.Create(v.path)
+	if err != nil {
+		return err
+	}
+	v.f = f
+	v.w = asyncbufio.NewWriter(f, v.depth, 3*time.Second)
+	return nil
+}
+func (v *v07Raw) header() error          { _, err := v.w.WriteString(v07RawHeader); return err }
+func (v *v07Raw) record(k int) error     { _, err := v.w.Write(v.recBytes(k)); return err }
+func (v *v07Raw) flush()                 { v.w.Flush() }
+func (v *v07Raw) close()                 { v.w.Close(); v.f.Close() }
+func (v *v07Raw) targets() []v07Target   { return v07One(v.path, v) }
+func (v *v07Raw) recBytes(k int) []byte  { return []byte(fmt.Sprintf("<record %d>", k)) }
+func (v *v07Raw) headerEnd(b []byte) int { return v07LJHHeaderEnd(b) }
+
+func v07Make(kind string, path string, depth int) v07Writer {
 	switch kind {
+	case "raw":
+		return &v07Raw{path: path, depth: depth}
 	case "multipub":
 		return &v07Multi{nb: 2, ns: 4, base: path}
 	case "offpub":
@@ -321,7 +358,10 @@ type v07Scenario struct {
 	depth   int
 	nrec    int
 	flushAt int // flush after this many records (-1 = no explicit flush)
+	ticks   int // periodic-flush ticks a clock thread offers at arbitrary points (0: the real 3 s ticker, which never fires)
 }
+
+const v07ClockPoint = 930
 
 // run one schedule of the scenario; returns the violation (if any).
 func (sc v07Scenario) run(x *vexp.X, dir string) vexp.Result {
@@ -331,7 +371,7 @@ func (sc v07Scenario) run(x *vexp.X, dir string) vexp.Result {
 		ljh.WRITECHANCAPACITY = 20
 	}
 	path := filepath.Join(dir, "f."+sc.kind)
-	w := v07Make(sc.kind, path)
+	w := v07Make(sc.kind, path, sc.depth)
 	tgts := w.targets()
 	for _, t := range tgts {
 		os.Remove(t.path)
@@ -397,7 +437,34 @@ func (sc v07Scenario) run(x *vexp.X, dir string) vexp.Result {
 			checkTarget(when, t, took[i])
 		}
 	}
+	// the periodic-flush ticker: the real one, or (tick scenarios) a channel with the real ticker's one-element
+	// buffer, fed by the clock thread: a tick may fire at any point of the execution and is taken by writeLoop
+	// at any of its later selects; the clock leaves when the producer is done, so it never causes a deadlock report
+	asyncbufio.VerifNewTicker = time.NewTicker
+	asyncbufio.VerifStallPoints = sc.ticks > 0
+	drivers := []func(){nil}
+	ticksSent := 0
+	var tickCh chan time.Time
+	over := make(chan struct{})
+	if sc.ticks > 0 {
+		tickCh = make(chan time.Time, 1)
+		asyncbufio.VerifNewTicker = func(time.Duration) *time.Ticker { return &time.Ticker{C: tickCh} }
+		drivers = append(drivers, func() {
+			for i := 0; i < sc.ticks; i++ {
+				vhook.PSC(v07ClockPoint, []interface{}{tickCh, over}, []bool{true, false}, false)
+				select {
+				case tickCh <- time.Time{}:
+					vhook.C(0)
+					ticksSent++
+				case <-over:
+					vhook.C(1)
+					return
+				}
+			}
+		})
+	}
 	producer := func() {
+		defer close(over)
 		if err := w.create(); err != nil {
 			fail("create-error", "CreateFile: %v", err)
 			return
@@ -430,9 +497,12 @@ func (sc v07Scenario) run(x *vexp.X, dir string) vexp.Result {
 	}
 	// multipub: four goroutines (producer + three writeLoops) and ~130 steps, most of them selects with two ready
 	// cases: delay-bounded there (a non-canonical select alternative or thread choice costs a deviation, too).
-	s := vhook.Run(x, vhook.Options{MaxSteps: 300, Names: []string{"producer"}, DelayBound: sc.kind == "multipub"}, producer)
+	drivers[0] = producer
+	s := vhook.Run(x, vhook.Options{MaxSteps: 300, Names: []string{"producer", "clock"}, DelayBound: sc.kind == "multipub"}, drivers...)
 	out := s.Outcome()
 	surv := s.Release(2 * time.Second)
+	asyncbufio.VerifNewTicker = time.NewTicker
+	asyncbufio.VerifStallPoints = false
 	if out.Pruned {
 		return vexp.Result{Skip: true}
 	}
@@ -444,6 +514,15 @@ func (sc v07Scenario) run(x *vexp.X, dir string) vexp.Result {
 		fail("runaway", "no termination within %d steps; schedule %s", out.Steps, s.TraceString())
 	} else if len(surv) > 0 {
 		fail("goroutine-left", "goroutines still alive after Close returned: %v", surv)
+	}
+	if sc.ticks > 0 {
+		// tick scenarios: non-trivial = writeLoop took its periodic-flush case at least once
+		taken := ticksSent - len(tickCh)
+		if viol != "" {
+			viol = fmt.Sprintf("%s depth=%d records=%d flushAt=%d ticks offered=%d taken=%d: %s\nschedule: %s", sc.kind, sc.depth, sc.nrec, sc.flushAt, sc.ticks, taken, viol, s.TraceString())
+		}
+		return vexp.Result{Violation: viol, Class: class, Nontrivial: taken > 0,
+			Outcome: fmt.Sprintf("acc=%v rej=%v hdr=%v ticks=%d", accepted, rejected, headerOK, taken)}
 	}
 	if viol != "" {
 		viol = fmt.Sprintf("%s depth=%d records=%d flushAt=%d: %s\nschedule: %s", sc.kind, sc.depth, sc.nrec, sc.flushAt, viol, s.TraceString())
@@ -460,9 +539,10 @@ func TestVerifC07(t *testing.T) {
 	if r.Thorough() {
 		pb = 3
 	}
-	r.SetBound(fmt.Sprintf("all interleavings of producer (create, header, 2-3 records, optional flush, close) and the real writeLoop goroutine with at most %d preemptions, all select alternatives; writers LJH2.2, LJH3, OFF, OFF driven through DataPublisher.PublishData (one record per call), and one DataPublisher with LJH2.2, LJH3 and OFF all active (one PublishData per record, DataPublisher.Flush, Remove*; three writeLoop goroutines, delay-bounded: at most 2 departures from the canonical thread / select-case choice; all three files checked when Flush and Close return; quick: 2 records, flush after record 1 or none; OFF queue depth 20 or 9, LJH queue depth 20); queue depth 2..20", pb))
+	r.SetBound(fmt.Sprintf("all interleavings of producer (create, header, 2-3 records, optional flush, close) and the real writeLoop goroutine with at most %d preemptions, all select alternatives; writers LJH2.2, LJH3, OFF, OFF driven through DataPublisher.PublishData (one record per call), and one DataPublisher with LJH2.2, LJH3 and OFF all active (one PublishData per record, DataPublisher.Flush, Remove*; three writeLoop goroutines, delay-bounded: at most 2 departures from the canonical thread / select-case choice; all three files checked when Flush and Close return; quick: 2 records, flush after record 1 or none; OFF queue depth 20 or 9, LJH queue depth 20); queue depth 2..20; tick scenarios (the bare asynchronous writer at depths 1 and 3, LJH2.2 depth 4, LJH3 depth 6, OFF depth 9; 1-2 records, no flush / flush after record 1 / after the last): a clock thread offers 1 periodic-flush tick (bare writer at depth 1: also 2) at arbitrary points, the consumer can also be stalled before every bufio Write / Flush call and every atomic operation is a scheduling point; at most 3 preemptions for the one-record LJH scenarios and the bare writer with one tick, 2 otherwise; LJH3 and OFF without the flush after record 1 of 2 (thorough: up to 3 records, all flush positions, 3 preemptions up to 2 records)", pb))
 	dir := filepath.Join(os.Getenv("TMPDIR"), "c07")
 	os.MkdirAll(dir, 0755)
+	vhook.Doc(v07ClockPoint, "clock: select{tick|producer done}")
 	var scs []v07Scenario
 	for _, kind := range []string{"ljh22", "ljh3", "off", "offpub", "multipub"} {
 		depths := map[string][]int{"ljh22": {2, 3, 4, 5}, "ljh3": {3, 5, 6, 7}, "off": {5, 8, 9, 12}, "offpub": {9, 20}, "multipub": {20, 9}}[kind]
@@ -478,7 +558,7 @@ func TestVerifC07(t *testing.T) {
 					if kind == "multipub" && !r.Thorough() && (nrec > 2 || fa > 1) {
 						continue // four goroutines: the schedule space is much larger
 					}
-					scs = append(scs, v07Scenario{kind, d, nrec, fa})
+					scs = append(scs, v07Scenario{kind, d, nrec, fa, 0})
 				}
 			}
 		}
@@ -493,6 +573,79 @@ func TestVerifC07(t *testing.T) {
 			return sc.run(x, dir)
 		})
 	}
+	// the tick family: periodic flushes at arbitrary points, disk-stall points and atomics switched on
+	for _, sc := range v07TickScenarios(r.Thorough(), false) {
+		sc := sc
+		r.DFSSharded(sc.tickCase("tick"), v07TickPB(sc, r.Thorough()), 3, func(x *vexp.X) vexp.Result {
+			return sc.run(x, dir)
+		})
+	}
+}
+
+func (sc v07Scenario) tickCase(prefix string) string {
+	return fmt.Sprintf("%s/%s/depth%d/rec%d/flush%d/ticks%d", prefix, sc.kind, sc.depth, sc.nrec, sc.flushAt, sc.ticks)
+}
+
+// v07TickScenarios: small scenarios (a tick and the extra points multiply the schedules) in which a clock thread
+// offers `ticks` periodic-flush ticks at arbitrary points. "raw" is the asynchronous writer alone (one Write per
+// record), the others go through the real LJH2.2 / LJH3 / OFF writers. small: the C05 back-pressure part.
+func v07TickScenarios(thorough, small bool) []v07Scenario {
+	var scs []v07Scenario
+	for _, kind := range []string{"raw", "ljh22", "ljh3", "off"} {
+		depths := map[string][]int{"raw": {1, 3}, "ljh22": {4}, "ljh3": {6}, "off": {9}}[kind]
+		nrecs, tickss := []int{1, 2}, []int{1}
+		if thorough {
+			depths = map[string][]int{"raw": {1, 2, 3}, "ljh22": {4}, "ljh3": {6}, "off": {9}}[kind]
+			nrecs = []int{1, 2, 3}
+		}
+		if kind == "raw" {
+			tickss = []int{1, 2}
+		}
+		if small {
+			nrecs = []int{2}
+		}
+		for _, d := range depths {
+			for _, nrec := range nrecs {
+				for i, fa := range []int{-1, 1, nrec} {
+					if (i == 2 && nrec == 1) || (i == 1 && nrec > 1 && small) {
+						continue // already listed / small: flush after the last record or none
+					}
+					if !thorough && (kind == "off" || kind == "ljh3") && nrec > 1 && i == 1 {
+						continue // a flush in the middle of the many-part records: thorough only
+					}
+					for _, tk := range tickss {
+						if tk > 1 && d > 1 && !thorough {
+							continue // two ticks: at the smallest queue only
+						}
+						scs = append(scs, v07Scenario{kind, d, nrec, fa, tk})
+					}
+				}
+			}
+		}
+	}
+	return scs
+}
+
+// v07TickPB: the preemption bound of a tick scenario. Three preemptions are what "the consumer is inside a
+// periodic flush; the producer gets a record accepted; the consumer finishes; the producer's Flush comes next"
+// takes (the producer never blocks before its Flush), so the smallest scenarios get 3; the larger ones 2.
+func v07TickPB(sc v07Scenario, thorough bool) int {
+	if thorough {
+		if sc.nrec >= 3 {
+			return 2
+		}
+		return 3
+	}
+	if sc.kind == "raw" {
+		if sc.ticks == 1 {
+			return 3
+		}
+		return 2
+	}
+	if sc.nrec == 1 && sc.kind != "off" {
+		return 3
+	}
+	return 2
 }
 
 // TestVerifC05BP is the back-pressure part of C05 (file length = header + whole accepted records, body = exactly
@@ -506,20 +659,28 @@ func TestVerifC05BP(t *testing.T) {
 	if r.Thorough() {
 		pb = 2
 	}
-	r.SetBound(fmt.Sprintf("back-pressure part: all interleavings of a producer (create, header, 2-3 records, optional flush, close) and the real writeLoop goroutine with at most %d preemptions; writers LJH2.2, LJH3, OFF; queue depths around one record's number of parts", pb))
+	r.SetBound(fmt.Sprintf("back-pressure part: all interleavings of a producer (create, header, 2-3 records, optional flush, close) and the real writeLoop goroutine with at most %d preemptions; writers LJH2.2, LJH3, OFF; queue depths around one record's number of parts; tick scenarios (2 records, flush after the last or none, the bare asynchronous writer and the three formats): a clock thread offers 1 (bare writer: also 2) periodic-flush ticks at arbitrary points, stall points before every bufio call and at atomic operations, at most %d preemptions", pb, pb+1))
 	dir := filepath.Join(os.Getenv("TMPDIR"), "c05bp")
 	os.MkdirAll(dir, 0755)
+	vhook.Doc(v07ClockPoint, "clock: select{tick|producer done}")
 	for _, kind := range []string{"ljh22", "ljh3", "off"} {
 		depths := map[string][]int{"ljh22": {2, 3, 4}, "ljh3": {3, 5, 6}, "off": {7, 8, 9}}[kind]
 		for _, d := range depths {
 			for _, nrec := range []int{2, 3} {
 				for _, fa := range []int{-1, 1} {
-					sc := v07Scenario{kind, d, nrec, fa}
+					sc := v07Scenario{kind, d, nrec, fa, 0}
 					r.DFSSharded(fmt.Sprintf("bp/%s/depth%d/rec%d/flush%d", sc.kind, sc.depth, sc.nrec, sc.flushAt), pb, 3, func(x *vexp.X) vexp.Result {
 						return sc.run(x, dir)
 					})
 				}
 			}
 		}
+	}
+	// a small tick family (see TestVerifC07): periodic flushes at arbitrary points with the disk-stall points on
+	for _, sc := range v07TickScenarios(r.Thorough(), true) {
+		sc := sc
+		r.DFSSharded(sc.tickCase("bp-tick"), pb+1, 3, func(x *vexp.X) vexp.Result {
+			return sc.run(x, dir)
+		})
 	}
 }
